@@ -84,13 +84,16 @@ def build_frame(rnd, shape=None):
     elif l4 == "udp":
         layers.append(("udp", len(out)))
         pl = rbytes(rnd, rnd.randrange(0, 24))
-        out += struct.pack(">HHHH", rnd.randrange(65536), rnd.randrange(65536), rnd.choice([8 + len(pl), rnd.randrange(65536)]),
-                           rnd.randrange(65536)) + pl
+        # the length field may say less than was captured (padding, trailers, bogus lengths) or more
+        ulen = rnd.choice([8 + len(pl), 8 + len(pl), rnd.randrange(65536), 0, 7, 8, 8 + len(pl) // 2, max(0, 8 + len(pl) - 1)])
+        out += struct.pack(">HHHH", rnd.randrange(65536), rnd.randrange(65536), ulen, rnd.randrange(65536)) + pl
     elif l4 == "ipv6":
         layers.append(("ipv6", len(out)))
         h = bytearray(rbytes(rnd, 40))
         h[6] = rnd.choice([6, 17, 0])
         out += bytes(h) + rbytes(rnd, rnd.randrange(0, 30))
+    if rnd.random() < 0.3:
+        out += rbytes(rnd, rnd.choice([1, 2, 6, 18]))       # Ethernet padding / a trailer after what the headers announce
     return out, layers
 
 
